@@ -151,6 +151,30 @@ def check(run: Run) -> None:
                 run.report("C16/char-target", {"definition": "struct main { char *p; uint16 k; };", "cstruct_kwargs": {"endian": "<", "pointer": "uint16"}, "load_kwargs": {"compiled": compiled, "align": False},
                                                "ops": [{"op": "dereference of char * at address 4", "string_length": ln, "data": data.hex(), **prob}]})
 
+    # pointers that are members of the ELEMENTS of a structure array (and of nested structures): the target is read from the caller's stream
+    for compiled in (False, True):
+        for endian in ("<", ">"):
+            text = "struct entry { char *name; uint16 id; }; struct inner { uint16 *q; }; struct main { entry entries[2]; inner in; uint8 k; };"
+            cs = structs.load(text, endian=endian, pointer="uint16", compiled=compiled)
+            bo = "little" if endian == "<" else "big"
+            head = b"".join(x.to_bytes(2, bo) for x in (16, 1, 20, 2, 24)) + b"\x07"
+            data = head + bytes(16 - len(head)) + b"foo\x00" + b"barbaz\x00"[:4] + (0xBEEF).to_bytes(2, bo) + b"tail"
+            data = data[:20] + b"bar\x00" + data[24:]
+            n_oracle += 1
+            stream = io.BytesIO(data)
+            try:
+                v = cs.main(stream)
+                pos = stream.tell()
+                got = (bytes(v.entries[0].name.dereference()), bytes(v.entries[1].name.dereference()), int(v.in_.q.dereference()) if hasattr(v, "in_") else int(getattr(v, "in").q.dereference()), stream.tell())
+                want = (b"foo", b"bar", 0xBEEF, pos)
+                prob = None if got == want else {"observed": repr(got), "expected": repr(want)}
+            except Exception as e:  # noqa: BLE001
+                prob = {"observed": repr(e)[:200], "expected": "b'foo', b'bar', 0xBEEF"}
+            if prob:
+                failures += 1
+                run.report("C16/pointer-in-array-element", {"definition": text, "cstruct_kwargs": {"endian": endian, "pointer": "uint16"}, "load_kwargs": {"compiled": compiled, "align": False},
+                           "ops": [{"op": "dereference pointers held by elements of a structure array", "data": data.hex(), **prob}]})
+
     # the pointer width follows the configuration that is current when a definition is loaded
     for pw1, pw2 in [("uint64", "uint16"), ("uint16", "uint32"), ("uint32", "uint8"), ("uint8", "uint64")]:
         for compiled in (False, True):
